@@ -121,7 +121,7 @@ def main():
                 jobs.append((data, [''], ('',)))
     # grammar-level phrases (each ends with whitespace): duplicates, loops, frames, composites in every order
     PHRASES = [b'#\\#CIF_2.0\n', b'data_a\n', b'data_A\n', b'save_f\n', b'save_\n', b'_n 1\n', b'_m x\n', b'_N\n', b'loop_\n', b'_m\n', b'1 2\n', b"'q' ", b'[1 2]\n', b"{'k':1}\n",
-               b'\n;t\n;\n', b'stop_\n', b'x ', b'loop_ _\xc3\xa9 _e\xcc\x81\n', b'_E\xcc\x81 0\n']       # the last two: one data name in NFC, in NFD and in another case
+               b'\n;t\n;\n', b'stop_\n', b'x ', b'loop_ _\xc3\xa9 _e\xcc\x81\n', b'_E\xcc\x81 0\n', b"_k {'\xe0\xa5\x98':1 '\xe0\xa5\x98\xe0\xa5\x99':2}\n"]       # the last two: one data name in NFC, in NFD and in another case
     for n in range(1, (4 if tier == 'quick' else 5) + 1):
         for seq in itertools.product(PHRASES, repeat=n):
             if n >= 4 and not (seq[0].startswith(b'data_') or (seq[0].startswith(b'#') and seq[1].startswith(b'data_'))):
@@ -175,7 +175,7 @@ def main():
                       ['the invariants are evaluated by harness/cifx.c:cmd_contract; sanitizer reports, crashes and hangs count as violations'])
 
 
-RULE = ('all sequences of at most 4 (thorough 5) of 19 grammar-level phrases (incl. the CIF 2.0 version comment and loop headers repeating a name in NFC / NFD / another case) (data names, loop headers, values, frames, composites; stored into a pre-populated CIF); all sequences of at most %d of the %d byte fragments under %d one-factor-at-a-time and corner option settings x target {none, new, pre-populated} '
+RULE = ('all sequences of at most 4 (thorough 5) of 20 grammar-level phrases (incl. the CIF 2.0 version comment and loop headers repeating a name in NFC / NFD / another case) (data names, loop headers, values, frames, composites; stored into a pre-populated CIF); all sequences of at most %d of the %d byte fragments under %d one-factor-at-a-time and corner option settings x target {none, new, pre-populated} '
         '(thorough: also under the full cross product of %d settings x target {none, pre-populated}, in slices until the deadline), sequences of at most %d fragments under the default options and corner settings, '
         '11 kinds of token ending at a 4096-byte read boundary -1/0/+1 followed by 13 kinds of trouble (CIF 2.0 and 1.1); whole-input UTF-16/32 renderings with and without BOM and with unpaired surrogates, tokens of 65599..262400 units, 100000-deep nesting; for each: the all-accepting callback, then every policy '
         '"accept k-1 errors, answer r at the k-th" (k <= 10; r in CIF_CLIENT_ERROR, the reported code, -1), cif_parse_error_die, NULL callback, NULL options, cif_parse_error_ignore; '
